@@ -998,6 +998,11 @@ func (e *Exec) arith(st *State, op token.Token, l, r Term, t types.Type, rt type
 		e.needBitAxioms()
 		return mk(SInt, "uf_xor", l, r)
 	case token.AND_NOT:
+		if m, ok := litVal(r); ok {
+			if k, isMask := maskBits(m); isMask {
+				return Sub(l, Mod(l, pow2(k))) // x &^ (2^k - 1) clears the low k bits
+			}
+		}
 		e.needBitAxioms()
 		return Sub(l, mk(SInt, "uf_and", l, r))
 	}
